@@ -777,4 +777,37 @@ theorem narrow_screen_witness :
     WScreen.chunks 6 8 ([0x24, 0x20] ++ ((Vterm.init 8 1 false).run keys).rl.line.text) =
       [[0x24, 0x20, 0x61, 0x62, 0x63, 0x78], [0x64, 0x65]] := by decide
 
+/-! ### the twins refine ONE reference editor -/
+
+/-- vterm.c and igris::vtermxx, driven by the same actions (keys as bytes or `int16_t`, init steps,
+`set_prompt`, `set_echo` in any order): the same callback events, the same line, cursor and browse
+position before the next call — because both refine the same reference editor
+(`session_with_settings`).  (The written bytes may differ when the prompt is changed while vtermxx
+still owes it: vterm.c has printed the old one already.) -/
+theorem twins_refine_one_editor (cap depth : Nat) (hcap : 1 ≤ cap) (hd : 1 ≤ depth) (prompt : List Byte) (as : List Act) :
+    let c := Vterm.init cap depth false prompt
+    let x := Vterm.init cap depth true prompt
+    c.actEvents as = x.actEvents as ∧ (c.runActs as).nrl.line.text = (x.runActs as).nrl.line.text ∧
+    (c.runActs as).nrl.line.cursor = (x.runActs as).nrl.line.cursor ∧
+    (c.runActs as).nrl.curhist = (x.runActs as).nrl.curhist := by
+  intro c x
+  obtain ⟨a1, _, a2, a3, a4⟩ := session_with_settings cap depth hcap hd false prompt as
+  obtain ⟨b1, _, b2, b3, b4⟩ := session_with_settings cap depth hcap hd true prompt as
+  exact ⟨a1.trans b1.symm, a2.trans b2.symm, a3.trans b3.symm, a4.trans b4.symm⟩
+
+/-- the written bytes CAN differ: Enter, then `set_prompt`, then a key -/
+example : (Vterm.init 4 1 false).actEchoed [.key CR, .setPrompt [0x3e], .key 0x61] ≠
+    (Vterm.init 4 1 true).actEchoed [.key CR, .setPrompt [0x3e], .key 0x61] := by decide
+
+/-- more corner cases of the key grammar (Keys.lean), as the code decodes them: Home / End sent as
+`ESC [ 1 ~` / `ESC [ 4 ~`, application-mode arrows `ESC O A`, modified arrows `ESC [ 1 ; 5 C` are
+unknown escapes whose tail is typed as text; two ESC in a row swallow each other; an escape
+sequence split anywhere is the same keys (the grammar sees the concatenation) -/
+example : keyPresses [ESC, 0x5b, 0x31, 0x7e] = [.char 0x7e] ∧
+    keyPresses [ESC, 0x4f, 0x41] = [.char 0x41] ∧
+    keyPresses [ESC, 0x5b, 0x31, 0x3b, 0x35, 0x43] = [.char 0x3b, .char 0x35, .char 0x43] ∧
+    keyPresses [ESC, ESC, 0x5b, 0x41] = [.char 0x5b, .char 0x41] ∧
+    keyPresses ([ESC] ++ [0x5b] ++ [0x41]) = [.up] ∧
+    keyPresses [ESC, 0x5b] = [] := by decide
+
 end Igris.C15
